@@ -199,6 +199,13 @@ func cmdCheck(args []string) int {
 		// native witness validation of passing paths
 		if r.h.Native && !r.h.NoWitness && !*noNative && len(ex.Witnesses) > 0 {
 			okN, bad := nativeRun(r.h, ex.Witnesses, r.ts.Bounds, false)
+			if len(bad) > 0 && r.h.Concurrent {
+				// natively the schedule is the Go runtime's: a disagreement must be
+				// persistent to count (a model error fails every time)
+				for try := 0; try < 2 && len(bad) > 0; try++ {
+					okN, bad = nativeRun(r.h, ex.Witnesses, r.ts.Bounds, false)
+				}
+			}
 			validated += okN
 			for _, b := range bad {
 				inconc = append(inconc, r.h.Entry+": witness replay disagrees with the engine: "+b)
